@@ -175,14 +175,64 @@ pub fn runseq_events(cfg: &Cfg) -> Vec<Event> {
     v.push(Event::Encode { call: EncCall::ReqGetEid, dst: 0x34 });
     v
 }
-pub const RUN_REPEATS: [usize; 5] = [1, 3, 4, 16, 17];
+pub const RUN_REPEATS: [usize; 9] = [1, 2, 3, 4, 5, 8, 9, 16, 17];
 
 pub fn runseq_for(run: &mut Run, prop: &'static str, filter: &Filter) {
     let cfg = pair_cfg();
     let ev = runseq_events(&cfg);
-    // depth 3 over all 55 symbols, and depth 5 over the requesters alone with repeats {1, 3}
+    // depth 3 over all 99 symbols; depth 5 over the requesters alone with repeats {1, 3}; depth 3 with
+    // repeat counts around the 8-bit boundary (255, 256, 257) where counters wrap or carry
     runseq(run, prop, "mixed events", &cfg, &ev, &RUN_REPEATS, 3, filter);
     runseq(run, prop, "five requesters", &cfg, &ev[..5], &[1, 3], if run.tier.thorough() { 6 } else { 5 }, filter);
+    runseq(run, prop, "mixed events, 8-bit boundary", &cfg, &ev, &[1, 255, 256, 257], if run.tier.thorough() { 3 } else { 2 }, filter);
+    thrash_for(run, prop, filter);
+}
+
+/// THRASH: the access pattern that defeats caches -- a key used k times, then N
+/// distinct other keys once each, then the first key (or the first of the sweep,
+/// or a fresh one) again.  Keys are requesters; for k in 1..=3, N in 0..=20,
+/// four commands.
+pub fn thrash_for(run: &mut Run, prop: &'static str, filter: &Filter) {
+    let cfg = Cfg { addr: DST, msg_types: vec![0x7E, 0x05, 0x00], vendors: vec![(0, 0x1414, 4), (1, 0xDEADBEEF, 9)] };
+    let cmds: [(u8, &[u8]); 5] = [(0x02, &[]), (0x03, &[]), (0x04, &[0xFF]), (0x05, &[]), (0x06, &[1])];
+    let probe_pkts = probes(&cfg);
+    run.sweep("THRASH: requester A x k, then N distinct requesters, then A / the first of them / a fresh one again (k in 1..=3, N in 0..=20, 5 commands, sweeps of the same or of rotating commands)", 5 * 3 * 21 * 3 * 2, |acc, i| {
+        let mut ix = Ix(i);
+        let rot = ix.take(2) == 1;
+        let revisit = ix.take(3);
+        let n = ix.take(21) as u8;
+        let k = ix.take(3) + 1;
+        let (cmd, data) = cmds[ix.take(5) as usize];
+        let a = 0x40u8;
+        let mk = |r: u8, j: usize| {
+            let (c, d) = if rot { cmds[j % 5] } else { (cmd, data) };
+            Event::Process(forge_request(r, DST, 0, false, c, d))
+        };
+        let mut hist: Vec<Event> = (0..k).map(|_| Event::Process(forge_request(a, DST, 0, false, cmd, data))).collect();
+        for j in 0..n {
+            hist.push(mk(0x41 + j, j as usize));
+        }
+        let last = match revisit {
+            0 => Event::Process(forge_request(a, DST, 0, false, cmd, data)),
+            1 => Event::Process(forge_request(0x41, DST, 0, false, cmd, data)),
+            _ => Event::Process(forge_request(0x7B, DST, 0, false, cmd, data)),
+        };
+        let m = Machine { cfg: cfg.clone(), init: hist, alphabet: vec![last] };
+        let owned = Owned::new(&cfg);
+        let node = m.eval(&owned, &probe_pkts, &[0]);
+        acc.evals += 1;
+        acc.trans += node.calls;
+        acc.validated += 1;
+        acc.state(node.key ^ i);
+        if n >= 2 {
+            acc.nontrivial(Fnv::default().u64(0x7A5).u64(i).finish());
+        }
+        let mut h = m.init.clone();
+        h.push(m.alphabet[0].clone());
+        for df in node.diffs.iter().filter(|df| filter(df, &h)) {
+            acc.violation(h.len() as u64, "thrash", format!("after {} call(s): {}", h.len(), df.text), || json!({"prop": prop, "check": "history", "cfg": m.cfg, "init": m.init, "history": [m.alphabet[0].clone()]}));
+        }
+    });
 }
 
 /// The complete small-request space for PAIRSEQ: the no-data commands from
@@ -852,6 +902,7 @@ pub fn run_c14(run: &mut Run) {
     });
     stateless(run, "C14", "MIXSEQ (every kind of call on one context)", &mixed_machine(), if run.tier.thorough() { 5 } else { 4 }, &c14_filter);
     pairseq_requests(run, "C14", &Cfg { addr: DST, msg_types: vec![0x7E], vendors: vec![(0, 0x1414, 4), (1, 0xDEADBEEF, 9), (0, 0x8086, 0), (1, 0x137, 0xFFFF)] }, &c14_filter);
+    thrash_for(run, "C14", &c14_filter);
     // a response buffer of exactly the size of the answer (19 bytes for a PCI set, 21 for an IANA set),
     // after every other selector was queried first: every mix for n = 2..=5
     {
@@ -890,6 +941,51 @@ pub fn run_c14(run: &mut Run) {
             let bad = compare_response(&RespExp::Bytes { bytes: bytes.clone(), body_claimed: true }, out.resp_len, out.resp_len.unwrap_or(0), &exact, true);
             if let Some(d) = bad.or_else(|| out.dec.is_panic().then(|| format!("{:?}", out.dec))) {
                 acc.violation(2, "tight-buffer", format!("selector {} then selector {} answered into a {}-byte buffer: {} ({:?})", s1, s2, bytes.len(), d, out.dec), || json!({"prop": "C14", "check": "tight", "cfg": cfg, "first": s1, "second": s2}));
+            }
+        });
+    }
+    // 9..=16 sets: every ordered pair of selectors with one other event in between (an assignment of
+    // a new EID, a Get Endpoint ID, a UUID store, nothing)
+    {
+        let big: Vec<&Cfg> = cfgs.iter().filter(|c| c.vendors.len() >= 9).step_by(7).collect();
+        let boffs: Vec<u64> = {
+            let mut o = vec![0u64];
+            for c in &big {
+                let n = c.vendors.len() as u64;
+                o.push(o.last().unwrap() + n * n * 4);
+            }
+            o
+        };
+        run.sweep("9..=16 sets: every ordered pair of selectors x {nothing, Set EID, Get EID, set_uuid} in between", *boffs.last().unwrap(), |acc, i| {
+            let k = match boffs.binary_search(&i) {
+                Ok(k) => k,
+                Err(k) => k - 1,
+            };
+            let cfg = big[k];
+            let n = cfg.vendors.len() as u64;
+            let mut ix = Ix(i - boffs[k]);
+            let mid = ix.take(4);
+            let s2 = ix.take(n) as u8;
+            let s1 = ix.take(n) as u8;
+            let mut alphabet = vec![vendor_req(s1)];
+            match mid {
+                1 => alphabet.push(req(0x01, &[0, 0x42])),
+                2 => alphabet.push(req(0x02, &[])),
+                3 => alphabet.push(Event::SetUuid(U1)),
+                _ => {}
+            }
+            alphabet.push(vendor_req(s2));
+            let m = Machine { cfg: cfg.clone(), init: vec![], alphabet };
+            let idx: Vec<u8> = (0..m.alphabet.len() as u8).collect();
+            let owned = Owned::new(cfg);
+            let node = m.eval(&owned, &probes(cfg), &idx);
+            acc.evals += 1;
+            acc.trans += node.calls;
+            acc.validated += 1;
+            acc.nontrivial(Fnv::default().u64(0x14B).u64(i).finish());
+            let h = m.history(&idx);
+            for df in node.diffs.iter().filter(|df| c14_filter(df, &h)) {
+                acc.violation(h.len() as u64, "selector-pair", df.text.clone(), || json!({"prop": "C14", "check": "history", "cfg": m.cfg, "init": m.init, "history": h}));
             }
         });
     }
